@@ -5,7 +5,7 @@
 (* One trace = one test case executed by the real TestCaseExecutor (i) and *)
 (* by the real SubprocessTestCaseExecutor (s); its single event carries    *)
 (* both projections of the ExecutionResult:                                *)
-(*   to  timeout flag                                                      *)
+(*   to  timeout flag; err  the executor raised instead of returning        *)
 (*   ex  <<position, exception type>>            (result.exceptions)       *)
 (*   ln  covered line ids, co  entered code objects                        *)
 (*   bt / bf  predicates with a true / false outcome (distance 0)          *)
@@ -47,7 +47,8 @@ Compared(c) == \E k \in DOMAIN cur.cmp : cur.cmp[k] = c
 Case(name, c) == At(name) /\ cur.kind # "batch" /\ cur.det /\ Compared(c)
 
 (* ------------------------------------------------------------------- C31 *)
-TimeoutAgree           == Case("TimeoutAgree", "to") => cur.i.to = cur.s.to
+\* err: the executor itself raised instead of delivering a result (0 = it delivered)
+TimeoutAgree           == Case("TimeoutAgree", "to") => cur.i.to = cur.s.to /\ cur.i.err = cur.s.err
 ExceptionsAgree        == Case("ExceptionsAgree", "ex") => cur.i.ex = cur.s.ex
 LinesAgree             == Case("LinesAgree", "ln") => cur.i.ln = cur.s.ln
 BranchesAgree          == Case("BranchesAgree", "br") => /\ cur.i.bt = cur.s.bt
